@@ -51,3 +51,17 @@ class SVGP(gpytorch.models.ApproximateGP):
     def forward(self, x):
         return MultivariateNormal(self.mean_module(x), self.covar_module(x))
 
+
+
+class DKL(gpytorch.models.ExactGP):
+    """deep-kernel model: a learned feature map, the library's ScaleToBounds (running input range kept in buffers, rewritten by every
+    training-mode call and only read in evaluation mode), then a kernel on the scaled features"""
+    def __init__(self, x, y, lik, kern):
+        super().__init__(x, y, lik)
+        self.feature_extractor = torch.nn.Linear(x.shape[-1], 1)
+        self.scale_to_bounds = gpytorch.utils.grid.ScaleToBounds(-1.0, 1.0)
+        self.mean_module, self.covar_module = M.ConstantMean(), kern
+
+    def forward(self, x):
+        z = self.scale_to_bounds(self.feature_extractor(x))
+        return MultivariateNormal(self.mean_module(z), self.covar_module(z))
